@@ -35,8 +35,25 @@ class Rig:
             self.base = mg.field([0.25, 1.0, 10.0, 100.0][: mg.dim + 1])
         else:
             self.grid, self.base = NoGrid(), None
+        # masked gridded payloads (flexible mask in the metadata): "partial" - the same cells masked in every
+        # publication, "nomask" - a masked array that masks nothing (numpy keeps no mask array for it)
+        self.masked = src.get("masked") if self.grid_spec else None
+        self.maskarr = None
+        if self.masked:
+            self.maskarr = (np.round(self.base * 3.7) % 3 == 0) if self.masked == "partial" else np.zeros(self.base.shape, bool)
+        # forms of the public API used to build the same link (sc["api"]): bit 0 - slot metadata as keywords instead of an
+        # Info object, bit 1 - .chain() instead of >>, bit 2 - metadata handed over late (push_info / exchange_info(info)), bit 3 - adapter constructor arguments in the
+        # other documented form (positional <-> keyword)
+        api = self.api = sc.get("api", 0)
         info = Info(time=dt(self.t0), grid=self.grid, units=self.units)
-        self.out = Output(name="src", info=info, static=bool(src.get("static")))
+        self.late_info = None
+        if api & 4 and not src.get("static"):
+            self.out = Output(name="src")
+            self.late_info = info
+        elif api & 1:
+            self.out = Output(name="src", time=dt(self.t0), grid=self.grid, units=self.units, static=bool(src.get("static")))
+        else:
+            self.out = Output(name="src", info=info, static=bool(src.get("static")))
         if src.get("mem_limit") is not None:
             self.out.memory_limit = src["mem_limit"]
             self.out.memory_location = scratch
@@ -57,17 +74,28 @@ class Rig:
                     ads.append(ad)
                     cur = ad
                     continue
-                ad = make_adapter(a)
+                ad = make_adapter(a, alt=bool(api & 8))
                 if c.get("mem_limit") is not None:
                     ad.memory_limit = c["mem_limit"]
                     ad.memory_location = scratch
                 self.labels[id(ad)] = f"c{ci}.a{pi}"
                 ads.append(ad)
-                cur = cur >> ad
-            inp = Input(name=f"c{ci}", info=Info(time=dt(self.t0), grid=None if self.grid_spec else NoGrid(),
-                                                 units=c.get("units")),
-                        static=bool(c.get("static")))
-            cur >> inp
+                cur = cur.chain(ad) if api & 2 else cur >> ad
+            # the time in an input's metadata is the consumer's own start; it may be later than the source's
+            it0 = dt(c.get("info_t", self.t0))
+            iinfo = Info(time=it0, grid=None if self.grid_spec else NoGrid(), units=c.get("units"))
+            if api & 4 and not c.get("static"):
+                inp = Input(name=f"c{ci}")
+                inp._late_info = iinfo
+            elif api & 1:
+                inp = Input(name=f"c{ci}", time=it0, grid=None if self.grid_spec else NoGrid(),
+                            units=c.get("units"), static=bool(c.get("static")))
+            else:
+                inp = Input(name=f"c{ci}", info=iinfo, static=bool(c.get("static")))
+            if api & 2:
+                cur.chain(inp)
+            else:
+                cur >> inp
             self.labels[id(inp)] = f"c{ci}"
             self.inputs.append(inp)
             self.adapters.append(ads)
@@ -84,9 +112,15 @@ class Rig:
     def connect(self):
         for inp in self.inputs:
             inp.ping()
+        if self.late_info is not None:
+            self.out.push_info(self.late_info)
         order = self.sc.get("exchange_order") or list(range(len(self.inputs)))
         for ci in order:
-            self.inputs[ci].exchange_info()
+            late = getattr(self.inputs[ci], "_late_info", None)
+            if late is not None:
+                self.inputs[ci].exchange_info(late)
+            else:
+                self.inputs[ci].exchange_info()
 
     def out_units(self, ci):
         """expected units label of what consumer ci receives (model side)"""
@@ -123,6 +157,15 @@ def registered_targets(sc):
 
 
 def run_e3(sc, scratch=None):
+    own_scratch = None
+    if scratch is None and (sc["src"].get("mem_limit") is not None or
+                            any(c.get("mem_limit") is not None for c in sc["consumers"])):
+        # storage pressure (F6): history and adapter buffers are spilled to real files below a per-process directory
+        from .world import scratch_dir
+        import shutil
+        own_scratch = scratch = os.path.join(scratch_dir(), "e3spill")
+        shutil.rmtree(scratch, ignore_errors=True)
+        os.makedirs(scratch, exist_ok=True)
     rig = Rig(sc, scratch)
     viol, probes, log = [], {}, []
 
@@ -134,7 +177,14 @@ def run_e3(sc, scratch=None):
 
     ins.install(rig.rec)
     try:
-        rig.connect()
+        try:
+            rig.connect()
+        except Exception as e:      # noqa: BLE001
+            # every generated link is valid: the metadata exchange of the SDK has to go through
+            v("push-raises", "connect:" + type(e).__name__,
+              f"ping / exchange_info of a valid link raised {type(e).__name__}: {str(e)[:300]}")
+            return {"violations": viol, "probes": probes, "digest": digest_of(["connect", type(e).__name__]), "log": log,
+                    "rig": rig, "n_pulls": 0, "n_push": 0}
         reg = registered_targets(sc)
         pulled_once = [False] * len(rig.inputs)
         last_obj = None
@@ -145,6 +195,10 @@ def run_e3(sc, scratch=None):
                 _, t, val = ev[:3]
                 mode = ev[3] if len(ev) > 3 else None
                 payload = float(val) if rig.base is None else rig.base + float(val)
+                if rig.masked == "partial":
+                    payload = np.ma.array(payload, mask=rig.maskarr.copy())
+                elif rig.masked == "nomask":
+                    payload = np.ma.array(payload)
                 exc = None
                 try:
                     rig.out.push_data(payload, dt(t))
@@ -190,7 +244,19 @@ def run_e3(sc, scratch=None):
                     if rig.base is None:
                         act = ("val", mag(d), str(d.units))
                     else:
-                        arr = np.asarray(d.magnitude)
+                        arr = d.magnitude
+                        if rig.masked:
+                            if not np.ma.isMaskedArray(arr):
+                                v("link-mask", "unmasked", f"event {ei}: consumer {ci} pull at {t}: masked publications "
+                                  "arrive as a plain array", consumer=ci)
+                            elif arr.shape == (1,) + rig.base.shape and \
+                                    not np.array_equal(np.ma.getmaskarray(arr)[0], rig.maskarr):
+                                v("link-mask", "mask", f"event {ei}: consumer {ci} pull at {t}: delivered mask "
+                                  f"{np.ma.getmaskarray(arr)[0].astype(int).tolist()}, published {rig.maskarr.astype(int).tolist()}",
+                                  consumer=ci)
+                            arr = np.where(rig.maskarr[None, ...], 0.0, np.ma.getdata(arr)) \
+                                if arr.shape == (1,) + rig.base.shape else np.ma.getdata(arr)
+                        arr = np.asarray(arr)
                         act = ("val", arr, str(d.units))
                 except FinamTimeError as e:
                     act = ("FinamTimeError", str(e)[:200])
@@ -227,6 +293,8 @@ def run_e3(sc, scratch=None):
                             else:
                                 fac = convert(1.0, ou, cu) if cu else 1.0
                                 exp_arr = (rig.base * (w1 - w0) * f) * fac + want[0]
+                                if rig.masked:
+                                    exp_arr = np.where(rig.maskarr, 0.0, exp_arr)
                                 # (offset units are not used with gridded payloads)
                                 if not np.allclose(arr[0], exp_arr, rtol=1e-9, atol=atol):
                                     v("link-value", "grid-value",
@@ -269,6 +337,8 @@ def run_e3(sc, scratch=None):
                       consumer=ci)
                 if got:
                     probe("source_request_compared")
+            if own_scratch and os.listdir(own_scratch):
+                probe("events_with_spilled_entries")
             # ---- C09 bound after every event
             if all(pulled_once[ci] or reg[ci] is not None for ci in range(len(rig.inputs))) and rig.pubs \
                     and not sc["src"].get("static"):
@@ -293,6 +363,12 @@ def run_e3(sc, scratch=None):
                 break
     finally:
         ins.uninstall()
+        if own_scratch:
+            n_files = len(os.listdir(own_scratch))
+            if n_files:
+                probe("spill_files_at_end", n_files)
+            import shutil
+            shutil.rmtree(own_scratch, ignore_errors=True)
     return {"violations": viol, "probes": probes, "digest": digest_of(log), "log": log, "rig": rig,
             "n_pulls": sum(1 for e in log if e[0] == "PULL"), "n_push": sum(1 for e in log if e[0] == "PUSH")}
 
